@@ -230,6 +230,23 @@ class PyDump:
         return (PYNAME.get(name, name), d)
 
 
+def mask_spec_kinds(t, in_spec=False):
+    """Oracle calibration: drop the `kind` ('u' marker) of constants inside a nested format spec. CPython 3.11's f-string compiler marks
+    some of them and not others (u'x' f'{a:>{w}}' vs u'x' f'''{a:\n}'''), an artefact no reader of the tree relies on."""
+    if isinstance(t, list):
+        return [mask_spec_kinds(x, in_spec) for x in t]
+    if isinstance(t, tuple) and len(t) == 2 and isinstance(t[1], dict):
+        name, d = t
+        out = {}
+        for k, v in d.items():
+            if in_spec and name == 'Constant' and k == 'kind':
+                out[k] = None
+            else:
+                out[k] = mask_spec_kinds(v, in_spec or (name == 'FormattedValue' and k == 'format_spec'))
+        return (name, out)
+    return t
+
+
 def firstdiff(a, b, path=''):
     """-> None or (path, a_here, b_here)"""
     if type(a) != type(b):
